@@ -65,6 +65,21 @@ def slicer_keep(quick_n, keep):
     return sel
 
 
+def vshared_cfg(tier, shared=False, emit=True, invs=("NonInterference", "Inv_Emit")):
+    return mc_cfg(list(invs), consts=["Calls = {1, 2, 3}", 'Stmts = {"s1", "s2", "s3", "s4"}', f"Shared = {'TRUE' if shared else 'FALSE'}"], emit=emit)
+
+
+# several verifications in flight on ONE verifier (VerifierShared.tla): the per-call design keeps NonInterference, a design that keeps the
+# chosen statement in a slot of the verifier must violate it; complete histories of starts and proceeds are schedules replayed against the
+# real verifier.Verify, the caller-supplied trust store being the scheduler's gate (race detector on)
+VSHARED_PHASES = [
+    dict(name="mutant-shared-statement-slot", mc=dict(module="VerifierShared", cfg=lambda tier, seed: vshared_cfg(tier, shared=True, emit=False, invs=("NonInterference",)), expect_violation="NonInterference")),
+    dict(name="shared-verifier",
+         gen=dict(module="VerifierShared", cfg=lambda tier, seed: vshared_cfg(tier), select=slicer(1500)),
+         drive=dict(driver="verifier-shared", race=True),
+         validate=dict(module="Trace_VerifierShared", cfg=trace_cfg())),
+]
+
 PLANS = {}
 HOOK_COMMITS = ["537babc"]
 
@@ -170,7 +185,7 @@ PLANS["C03"] = dict(
                  select=slicer2(8000, 250000)),
         drive=dict(driver="stores-history", race=True),
         validate=dict(module="Trace_VStoresHist", cfg=trace_cfg()),
-    )],
+    )] + VSHARED_PHASES,
 )
 
 # ------------------------------------------------------------------ C05
@@ -276,7 +291,7 @@ PLANS["C08"] = dict(
         # fallback only for a missing file, nothing remembered about a file between two loads) - PolicyFiles.tla
         dict(name="policy-files", gen=dict(module="MC_PolicyFiles", cfg=mc_cfg(["Inv_RegularOnly", "Inv_ValidOnly", "Inv_Fallback", "Inv_Trust", "Inv_Emit"]), select=take_all),
              drive=dict(driver="policyfiles"), validate=dict(module="Trace_PolicyFiles", cfg=trace_cfg())),
-    ],
+    ] + VSHARED_PHASES,
 )
 
 # ------------------------------------------------------------------ C14
@@ -676,7 +691,7 @@ PLANS["C04"] = dict(
         # ... and those of the policy FILE as it is now (nothing is remembered about a file between two loads)
         name="policy-files", gen=dict(module="MC_PolicyFiles", cfg=mc_cfg(["Inv_Trust", "Inv_Emit"]), select=take_all),
         drive=dict(driver="policyfiles"), validate=dict(module="Trace_PolicyFiles", cfg=trace_cfg(), only_rules=["reload-reflects-the-file", "trust-from-the-file-used", "no-panic"]),
-    )],
+    )] + VSHARED_PHASES,
 )
 
 # ------------------------------------------------------------------ C06
